@@ -285,13 +285,15 @@ def summarise(func, limit=6000, to_raise=True, lists=False):
                     if isinstance(a.target, ast.Name):
                         env[a.target.id] = each(it) if size(it) < MAX_NODES else None
                     else:
-                        k = 0
-                        for e in ast.walk(a.target):
-                            if isinstance(e, ast.Name):
-                                env[e.id] = ast.Subscript(
-                                    value=each(it), slice=ast.Constant(value=k),
-                                    ctx=ast.Load()) if size(it) < MAX_NODES else None
-                                k += 1
+                        def bind(t, val):
+                            if isinstance(t, ast.Name):
+                                env[t.id] = val
+                            elif isinstance(t, (ast.Tuple, ast.List)):
+                                for k, e in enumerate(t.elts):
+                                    bind(e, None if val is None else ast.Subscript(
+                                        value=val, slice=ast.Constant(value=k),
+                                        ctx=ast.Load()))
+                        bind(a.target, each(it) if size(it) < MAX_NODES else None)
                     c = 'ITER(%s)' % norm_src(it)
                     if ps.facts.get(c) is False and stable:
                         ps.infeasible = True
